@@ -23,6 +23,11 @@ int main(void) {
                     int r;
                     if(o[0] == 't') r = zck_set_ioption(zck, ZCK_VAL_HEADER_HASH_TYPE, atoll(o + 1));
                     else if(o[0] == 'e') r = zck_clear_error(zck);
+                    else if(o[0] == 'v') r = zck_validate_lead(zck);
+                    else if(o[0] == 'F') {   /* the file changes under the context (a partial download replaced by another file) */
+                        size_t n2; unsigned char *r2 = zh_unhex(o + 1, &n2);
+                        r = ftruncate(fd, 0) == 0 && pwrite(fd, r2, n2, 0) == (ssize_t)n2 && lseek(fd, 0, SEEK_SET) == 0;
+                        free(r2); }
                     else if(o[0] == 's') r = zck_set_ioption(zck, ZCK_VAL_HEADER_LENGTH, atoll(o + 1));
                     else { size_t sl; unsigned char *s = zh_unhex(o + 1, &sl);
                            r = zck_set_soption(zck, ZCK_VAL_HEADER_DIGEST, (char*)s, sl); free(s); }
